@@ -1,4 +1,5 @@
 import ComposeVerif.Model.ShortMerge
+import ComposeVerif.Model.ShortDecode
 /-!
 # C03 — pre-repair witness for `build.ssh` in a second document (round 5, repo commit 8182cc6)
 
@@ -30,5 +31,37 @@ theorem ssh_short_ne_long_pre_fix :
   have := h ["services", "s", "build", "ssh"]
   rw [h1, h2] at this
   cases this
+
+/-! ## round 7 finding `merged-mapping-host-addresses-reordered`
+
+`override.convertIntoSequence` turns the mapping spelling of `extra_hosts` into `host=ip` lines and **sorts the lines**
+(needed across hosts: Go map order), which also reorders the addresses of ONE host.  The list spelling is taken as it
+is.  So the two spellings of `h1 ↦ [fe80::1, 10.0.0.1]`, equal when loaded alone, differ as soon as a second document
+touches the attribute.  Replayed on the real code on every run: corpus/C03/extra-hosts-merged-address-order.json. -/
+
+/-- alone the two spellings decode to the same `HostsList`; merged with the second document `{h1: 9.9.9.9}` by the model
+of `mergeExtraHosts` they give two sequences that decode to different `HostsList`s -/
+theorem extra_hosts_merged_short_ne_long (mk : Val.KVs → Val.KVs → TPath → Merge.Out Val.KVs) (p : TPath) :
+    decodeHosts (.seq [.str "h1=fe80::1,10.0.0.1"]) = decodeHosts (.map [("h1", .seq [.str "fe80::1", .str "10.0.0.1"])])
+    ∧ Merge.specialStep mk .extraHosts (.seq [.str "h1=fe80::1,10.0.0.1"]) (.map [("h1", .str "9.9.9.9")]) p
+        = .ok (.seq [.str "h1=fe80::1,10.0.0.1", .str "h1=9.9.9.9"])
+    ∧ Merge.specialStep mk .extraHosts (.map [("h1", .seq [.str "fe80::1", .str "10.0.0.1"])]) (.map [("h1", .str "9.9.9.9")]) p
+        = .ok (.seq [.str "h1=10.0.0.1", .str "h1=fe80::1", .str "h1=9.9.9.9"])
+    ∧ decodeHosts (.seq [.str "h1=fe80::1,10.0.0.1", .str "h1=9.9.9.9"])
+        = some (.map [("h1", .seq [.str "fe80::1", .str "10.0.0.1", .str "9.9.9.9"])])
+    ∧ decodeHosts (.seq [.str "h1=10.0.0.1", .str "h1=fe80::1", .str "h1=9.9.9.9"])
+        = some (.map [("h1", .seq [.str "10.0.0.1", .str "fe80::1", .str "9.9.9.9"])]) := by
+  refine ⟨by rfl, by rfl, by rfl, by rfl, by rfl⟩
+
+/-- the negation of "short ≡ long survives the merger" for `extra_hosts` with several addresses per host -/
+theorem extra_hosts_merged_short_eq_long_false :
+    ¬ (∀ (e₁ e₂ o : Val) (p : TPath), decodeHosts e₁ = decodeHosts e₂ →
+        ∀ m₁ m₂, Merge.specialStep (Merge.mergeKVs 8) .extraHosts e₁ o p = .ok m₁ →
+          Merge.specialStep (Merge.mergeKVs 8) .extraHosts e₂ o p = .ok m₂ → decodeHosts m₁ = decodeHosts m₂) := by
+  intro h
+  obtain ⟨h0, h1, h2, h3, h4⟩ := extra_hosts_merged_short_ne_long (Merge.mergeKVs 8) []
+  have := h _ _ _ [] h0 _ _ h1 h2
+  rw [h3, h4] at this
+  simp at this
 
 end CV.Short.Neg
